@@ -73,6 +73,22 @@ func encode(ins []gojq.VerifInstr) string {
 	return sb.String()
 }
 
+// hasOp reports whether an encoded instruction list contains one of the opcodes.
+func hasOp(enc string, ops ...string) bool {
+	for _, tok := range strings.Fields(enc) {
+		op := tok
+		if k := strings.IndexByte(tok, '|'); k >= 0 {
+			op = tok[:k]
+		}
+		for _, o := range ops {
+			if op == o {
+				return true
+			}
+		}
+	}
+	return false
+}
+
 func normConst(v any) any {
 	switch v.(type) {
 	case nil, bool, int, float64, string, []any, map[string]any:
@@ -292,6 +308,36 @@ func main() {
 	}
 	stSafe.Labels = safeLabels
 	ctx.RunStream(stSafe, safeLines, safeImpl)
+	// the static hypotheses of the tail-call simulation theorem (Props/C04Tail.lean) on every real
+	// program: the code the tail-call pass receives must pass the shape scan (the implementation's
+	// answer is the constant `shape-ok`), and the two classifications the theorem depends on — the
+	// program creates no closure (no pushpc/callpc), the pass produced no callrec — are computed on
+	// both sides (a plain opcode scan here, the Lean definitions the theorem uses there)
+	stTwf := ctx.NewStream("tailwf", "Gojq.TailVM.tailShapeCheckView / closureFreeView / noCallrecView (Model/TailVM.lean), proved equal to the hypotheses tailWfCheck and noCallrec of optimizeTailRec_preserves_outputs_partial",
+		"every instruction list sent to the tailrec stream (before the pass: `shape-ok` + closure-free/closures) and every list the real pass produced (jumps-only/has-callrec); distribution = how many real programs the proved theorem covers (closure-free and jumps-only)")
+	var twLines, twImpl, twLabels []string
+	for i := range tailLines {
+		cf, jo := "closure-free", "jumps-only"
+		if hasOp(tailLines[i], "pushpc", "callpc") {
+			cf = "closures"
+		}
+		if hasOp(tailImpl[i], "callrec") {
+			jo = "has-callrec"
+		}
+		twLines = append(twLines, "B "+tailLines[i], "A "+tailImpl[i])
+		twImpl = append(twImpl, "shape-ok "+cf, jo)
+		twLabels = append(twLabels, tailLabels[i]+"  (before the tail-call pass)", tailLabels[i]+"  (after the tail-call pass)")
+		stTwf.Distribution[cf]++
+		stTwf.Distribution[jo]++
+		if tailLines[i] != tailImpl[i] {
+			stTwf.Distribution["pass-rewrote-a-call"]++
+			if cf == "closure-free" && jo == "jumps-only" {
+				stTwf.Distribution["pass-rewrote-a-call:covered-by-theorem"]++
+			}
+		}
+	}
+	stTwf.Labels = twLabels
+	ctx.RunStream(stTwf, twLines, twImpl)
 	// a pass no longer does what its model does: look for an OBSERVABLE difference around the
 	// programs on which they differ (a misplaced stack slot only shows in some contexts)
 	var suspects []string
